@@ -76,7 +76,10 @@ def gen_expr(rng, root_name):
     e = "/".join(steps)
     r = rng.random()
     if r < 0.15:
-        e = "/" + root_name + "/" + e
+        # the root step may carry predicates too: ones the root does not satisfy make the path unreachable without a
+        # second root (seeded C15-9: predicates of the first step dropped while creating)
+        rp = "" if rng.random() < 0.5 else '[@%s="%s"]' % (rng.choice(["k", "m", "kind"]), rng.choice(["1", "2", "b"]))
+        e = "/" + root_name + rp + "/" + e
     elif r < 0.2:
         e = "./" + e
     return e
